@@ -10,7 +10,8 @@ import (
 // TestVerifReproC17HugeInitialCap: minimal standalone reproduction of the known finding
 // "listener-created-with-maxConnections-above-20M: closing a connection panics" (not part of the
 // check's run regexp; run with -test.run TestVerifReproC17HugeInitialCap). A listener created with
-// maxConnections 4294967295 accepts one connection; closing it panics on the unchanged tree.
+// maxConnections 4294967295 accepts one connection; closing it panicked before /repo d0aa07d (kept as a
+// regression probe: passes on HEAD).
 func TestVerifReproC17HugeInitialCap(t *testing.T) {
 	inner, err := net.Listen("tcp", "127.0.0.1:0")
 	if err != nil {
